@@ -28,9 +28,9 @@ for p in props:
 m = {
     "version": 1,
     "setup_cmd": "./setup.sh",
-    "hooks": {"guard": "ADA_URL_ADA_VERIF", "enable": "no source hooks are needed: the shim (shim/vk.cpp) is compiled as the same translation unit as /repo/src/ada.cpp with -fno-access-control; -DADA_URL_ADA_VERIF=1 is passed but no code in /repo tests it",
+    "hooks": {"guard": "ADA_URL_ADA_VERIF", "enable": "the checks compile /repo/src/ada.cpp themselves (clang++-14) with -DADA_URL_ADA_VERIF=1; the one source hook (commit 36dd3c7: an inline flag ada::url_pattern_verif_force_regexp read in url_pattern_component::compile(), which sends every URLPattern component through the regular expression) is used by the native URLPattern base case of C14/C15 only; the solver obligations need no hook: the shim (shim/vk.cpp) is the same translation unit as ada.cpp, compiled with -fno-access-control",
               "baseline_off_cmd": "cmake --build /repo/_build -j16 -- -k 0 ; ctest --test-dir /repo/_build -j8 --timeout 900",
-              "source_commits": [], "add_only": True},
+              "source_commits": ["36dd3c7"], "add_only": True},
     "engines": [{"name": "ll2c+cbmc", "path": "/verif/lib/engine.py", "serves_properties": [c["property_id"] for c in checks],
                  "kind_free_text": "clang-14 -O1 LLVM IR of the real sources -> ll2c (own translator, LLVM-14 API) -> C -> CBMC 6.11 bounded model checking with unwinding assertions; translation validation against the object code of the same IR; native replay of every counterexample"}],
     "checks": checks,
